@@ -119,6 +119,16 @@ func runScript(t *testing.T, c *rt.Case, cfg world.GWConfig, bcfg world.BrokerCf
 		}
 		synctest.Wait()
 		execSteps(w, s, b, steps)
+		if leakIsViolation != "" {
+			// "no goroutine of the session outlives it": look right after the handler returned
+			// (one poll interval after the cause), before timers that would clean up later can fire
+			time.Sleep(150 * time.Millisecond)
+			synctest.Wait()
+			if s.Ended() {
+				g.Evs = w.Tr.Events()
+				handleLeaks(c, g)
+			}
+		}
 		if tail > 0 {
 			time.Sleep(tail)
 			synctest.Wait()
